@@ -3,7 +3,7 @@
    unlocked deposits (multi- and single-asset), bank sends, block changes and rejected operations is exactly the initial
    excess plus the tokens sent to it by plain bank sends plus one unit per accepted odd single-asset deposit. *)
 From MD.Model Require Import Base Ownable Epoch PoolMath Types PoolManager FarmManager Chain.
-From MD.Proofs Require Import LockedExcess Tactics Arith PoolMathProofs MapLemmas BankProofs SwapProofs ChainProofs PmProofs PmChainProofs LiquidityProofs
+From MD.Proofs Require Import LockedExcess CreateExcess Tactics Arith PoolMathProofs MapLemmas BankProofs SwapProofs ChainProofs PmProofs PmChainProofs LiquidityProofs
   AtomicProofs PoolCustody PoolCustodyChain SingleSided TxBalances TxExcess.
 
 Definition asset_denom (d : string) : Prop := forall id, d <> lp_of_id id.
@@ -20,11 +20,13 @@ Definition covered_op (o : op) : Prop :=
       | WPm (PmProvide _ _ _ _ (Some _) _) =>      (* LP locked in the farm manager: deposits of two or more assets *)
           match aggregate_coins funds with Ok (_ :: _ :: _) => True | _ => False end
       | WPm (PmWithdraw _) => True
+      | WPm (PmCreatePool _ _ _ _ _) => forall d, camt funds d <= U128_MAX       (* amounts of a real bank *)
+      | WPm (PmOwnership _) | WPm (PmUpdateConfig _ _ _ _) => True
       | _ => False
       end
   end.
 Definition ok_state (w : world) : Prop :=
-  pm_fee_collector (pm_cfg (w_pm w)) <> PM /\ pm_farm_manager (pm_cfg (w_pm w)) = FM /\ lp_inv (w_pm w).
+  pm_fee_collector (pm_cfg (w_pm w)) <> PM /\ pm_farm_manager (pm_cfg (w_pm w)) = FM /\ lp_inv (w_pm w) /\ fees_small w.
 
 (* what an operation adds to the excess: only donations and the odd unit of an accepted single-asset deposit *)
 Definition gift (w : world) (o : op) (d : string) : Z :=
@@ -71,7 +73,7 @@ Lemma step_excess w o d :
   covered_op o -> ok_state w -> asset_denom d ->
   slackP (fst (step w o)) d = slackP w d + gift w o d.
 Proof.
-  intros Hc (Hfc & Hfmc & Hlp) Hd. unfold gift.
+  intros Hc (Hfc & Hfmc & Hlp & Hsmall) Hd. unfold gift.
   destruct o as [b|sender target m funds|from to amount|k]; cbn [step covered_op] in *.
   - cbn [fst snd]. unfold slackP. cbn [w_bank w_pm set_block]. lia.
   - destruct Hc as (Hs & -> & Hm).
@@ -79,6 +81,8 @@ Proof.
     rewrite slackP_set_fault.
     destruct m as [| |pm|]; try contradiction.
     destruct pm as [denoms decimals fees pt oid | ls ss r pid u l | ask bp ms r pid | pid | a | ops mr r ms | fc fm fee t]; try contradiction.
+    + (* pool creation *)
+      rewrite (create_pool_tx_excess _ _ _ _ _ _ _ _ _ Hs Hfc Hsmall Hm E d). lia.
     + (* deposits *)
       destruct u as [dur|].
       { (* locked in the farm manager *)
@@ -102,9 +106,13 @@ Proof.
       unfold ind. lia.
     + (* withdrawal *)
       rewrite (withdraw_tx_excess _ _ _ _ _ Hs E d). lia.
+    + (* ownership *)
+      rewrite (admin_tx_excess _ _ _ _ _ (or_introl (ex_intro _ a eq_refl)) E d). lia.
     + (* route *)
       destruct (route_tx_excess _ _ _ _ _ _ _ _ Hs Hfc E) as (lst & out & _ & Hex). rewrite Hex.
       rewrite (addr_or_default_ne w r sender Hs Hm). unfold ind. lia.
+    + (* configuration, switches *)
+      rewrite (admin_tx_excess _ _ _ _ _ (or_intror (ex_intro _ fc (ex_intro _ fm (ex_intro _ fee (ex_intro _ t eq_refl))))) E d). lia.
   - destruct (bank_send (w_bank w) from to amount) as [b'|e] eqn:Eb; cbn [fst snd]; [|lia].
     destruct (String.eqb to PM) eqn:Et.
     + apply String.eqb_eq in Et. subst to. apply (donation_excess _ _ _ _ Hc Eb).
@@ -159,12 +167,14 @@ Fixpoint fc_ok_run (w : world) (ops : list op) : bool :=
   end.
 
 Lemma good_run_intro ops : forall w,
-  lp_inv (w_pm w) -> Forall covered_op ops -> fc_ok_run w ops = true -> good_run w ops.
+  lp_inv (w_pm w) -> pool_custody w -> Forall covered_op ops -> Forall op_okP ops -> fc_ok_run w ops = true -> good_run w ops.
 Proof.
-  induction ops as [|o r IH]; intros w Hl Hc Hf; cbn [good_run fc_ok_run] in *; [exact I|].
-  inversion Hc as [|x xs Ho Hr]; subst. apply andb_true_iff in Hf. destruct Hf as [Hf1 Hf2]. apply andb_true_iff in Hf1. destruct Hf1 as [Hf1 Hf3].
+  induction ops as [|o r IH]; intros w Hl Hpc Hc Hok Hf; cbn [good_run fc_ok_run] in *; [exact I|].
+  inversion Hc as [|x xs Ho Hr]; subst. inversion Hok as [|x xs Ho2 Hr2]; subst.
+  apply andb_true_iff in Hf. destruct Hf as [Hf1 Hf2]. apply andb_true_iff in Hf1. destruct Hf1 as [Hf1 Hf3].
   split; [exact Ho|]. split.
-  - split; [apply negb_true_iff in Hf1; apply String.eqb_neq in Hf1; exact Hf1|]. split; [apply String.eqb_eq; exact Hf3 | exact Hl].
-  - apply IH; [|exact Hr | exact Hf2].
+  - split; [apply negb_true_iff in Hf1; apply String.eqb_neq in Hf1; exact Hf1|]. split; [apply String.eqb_eq; exact Hf3|].
+    split; [exact Hl|]. destruct Hpc as [[Hfs _] _]. exact Hfs.
+  - apply IH; [| apply step_pool_custody; assumption | exact Hr | exact Hr2 | exact Hf2].
     change (fst (step w o)) with (run w [o]). apply run_lp_inv. exact Hl.
 Qed.
